@@ -6,13 +6,34 @@ import "golang.org/x/tools/go/ssa"
 // their unique register name, fields by the canonical access path.
 func cellName(addr ssa.Value) string {
 	if al, ok := addr.(*ssa.Alloc); ok {
-		return "alloc:" + al.Name()
+		return "alloc:" + fnKey(al.Parent()) + ":" + al.Name()
 	}
 	if fa, ok := addr.(*ssa.FieldAddr); ok {
 		if al, ok := fa.X.(*ssa.Alloc); ok {
 			_, f, _, _ := FieldOf(fa)
-			return "alloc:" + al.Name() + "." + f
+			return "alloc:" + fnKey(al.Parent()) + ":" + al.Name() + "." + f
 		}
 	}
 	return Canon(addr)
+}
+
+func fnKey(f *ssa.Function) string {
+	if f == nil {
+		return "?"
+	}
+	return f.String()
+}
+
+// cellNameR is cellName with the base of a field address resolved first, so
+// that a field reached through a helper's parameter and the same field reached
+// through the caller's value name one cell.
+func cellNameR(addr ssa.Value, resolve func(ssa.Value) ssa.Value) string {
+	if fa, ok := addr.(*ssa.FieldAddr); ok {
+		if _, isAlloc := fa.X.(*ssa.Alloc); !isAlloc {
+			base := resolve(fa.X)
+			_, f, _, _ := FieldOf(fa)
+			return "field:" + Canon(base) + "." + f
+		}
+	}
+	return cellName(addr)
 }
